@@ -69,6 +69,9 @@ def make_overlay():
 
 
 def build_driver(name, race=False):
+    if os.environ.get("VERIF_COVER_BIN") and not race:
+        # blind-spot analysis only (lib/coverage.sh): pre-built coverage-instrumented drivers, GOCOVERDIR is inherited
+        return os.path.join(os.environ["VERIF_COVER_BIN"], name)
     ov = make_overlay()
     out = os.path.join(WORK, "bin", name + ("-race" if race else ""))
     os.makedirs(os.path.dirname(out), exist_ok=True)
@@ -260,7 +263,10 @@ def validate_trace(trace_module, trace_path, cfg=None, timeout=900, extra_files=
     v.tlc = r
     v.events = n
     if getattr(r, "fatal", None):
-        raise MachineryError("TLC crashed (%s) validating %s\n%s" % (r.fatal, trace_path, r.out[-3000:]))
+        ex = MachineryError("TLC crashed (%s) validating %s\n%s" % (r.fatal, trace_path, r.out[-3000:]))
+        # rejections printed before the crash are real observations: the caller records them before giving up
+        ex.partial_bad = sorted(set((t[0], t[1]) + tuple(t[2:]) for t in tlc_tuples(r.out, "BAD") if len(t) >= 2))
+        raise ex
     h = tlc_tuples(r.out, "HARNESS")
     if h:
         raise MachineryError("harness inconsistency reported by %s: %s" % (trace_module, h[:3]))
@@ -432,8 +438,17 @@ class Ctx:
             require_events = 0      # the trace of a crashed / wedged run is legitimately short
         if len(lines) < require_events:
             raise MachineryError("trace %s has %d events (< %d): dead driver" % (trace_path, len(lines), require_events))
-        v = validate_trace(trace_module, trace_path, cfg=cfg, timeout=timeout, extra_files=extra_files,
-                           defines=defines, tag="%s-%s" % (self.prop, trace_module))
+        try:
+            v = validate_trace(trace_module, trace_path, cfg=cfg, timeout=timeout, extra_files=extra_files,
+                               defines=defines, tag="%s-%s" % (self.prop, trace_module))
+        except MachineryError as ex:
+            for b in getattr(ex, "partial_bad", []):
+                l, inv = b[0], b[1]
+                if only and not any(inv.startswith(p) for p in only):
+                    continue
+                ev = json.loads(lines[l - 1]) if 1 <= l <= len(lines) else {}
+                self._report(keyfn(ev, inv), (describe(ev, inv) if describe else "%s fails at line %d" % (inv, l)), trace_path, l, ev, inv)
+            raise
         self.cmds.append(v.tlc.cmd)
         self.traces += 1
         self.events += v.events
